@@ -91,7 +91,8 @@ static void case_begin(const char *id)
     snprintf(G->cur_case, sizeof(G->cur_case), "%s", id);
     v_crash_note(id);
     v_watchdog(20);
-    G->states++;
+    if (G->states++ < 2 && !g_replay)
+        v_sample("%s", id);
     if (g_verbose)
         printf("NOTE running %s\n", id);
 }
@@ -2610,8 +2611,8 @@ int main(int argc, char **argv)
         snprintf(tail, sizeof(tail), "%.650s", p);
         viol(sig, G->cur_case, "worker died (%s) in %s while executing this case; report: %s", kind, where[0] ? where : "?", tail);
         g_resume = G->cur_idx + 1;
-        if (++crashes >= 40) {
-            v_incomplete("more than 40 crashing cases in this job, enumeration stopped at case index %lld", G->cur_idx);
+        if (++crashes >= 400) {
+            v_incomplete("more than 400 crashing cases in this job, enumeration stopped at case index %lld", G->cur_idx);
             break;
         }
     }
